@@ -132,3 +132,17 @@ def find_mode(data):
         if ok:
             return 'kanji'
     return 'byte'
+
+
+NEAR_ALNUM_EXTRA = ',;!#&\'()=?@[]_<>"~^`|{}abcxyz'
+
+
+def near_text(rng, n):
+    """Content that is *almost* numeric / alphanumeric: one or two characters outside the compact alphabet
+    (mode detection and the per-mode encoders meet at these boundaries)."""
+    base = rng.choice(('numeric', 'alphanumeric'))
+    chars = list(text(rng, base, max(1, n)))
+    for _ in range(rng.choice((1, 1, 2))):
+        pool = NEAR_ALNUM_EXTRA if base == 'alphanumeric' else ALNUM[10:] + ',.- '
+        chars[rng.randrange(len(chars))] = rng.choice(pool)
+    return ''.join(chars)
